@@ -5,10 +5,10 @@ cd "$(dirname "$0")"
 command -v java >/dev/null
 /venv/bin/python -c "import sys; sys.path.insert(0, '/repo/src'); import pygaps, numpy, pandas, scipy" >/dev/null
 mkdir -p evidence replays
-for f in spec/*.tla; do
-  (cd spec && java -cp /opt/veriftools/tla/tla2tools.jar:/opt/veriftools/tla/CommunityModules-deps.jar tla2sany.SANY "$(basename "$f")" >/tmp/sany.$$ 2>&1) || { cat /tmp/sany.$$; rm -f /tmp/sany.$$; echo "SANY failed on $f"; exit 1; }
+# every module named in spec/REGISTERED (those the registered checks use) must parse
+for m in $(cat spec/REGISTERED); do
+  out=$(cd spec && java -cp /opt/veriftools/tla/tla2tools.jar:/opt/veriftools/tla/CommunityModules-deps.jar tla2sany.SANY "$m.tla" 2>&1) || { echo "$out"; echo "SANY failed on $m"; exit 1; }
 done
-rm -f /tmp/sany.$$
 tools/selftest_libs.py 3000
 python3 -c "import json; json.load(open('known_findings.json')); json.load(open('MANIFEST.json'))"
 echo "setup ok"
